@@ -65,13 +65,14 @@ class C19(Prop):
                     idx = [j for j in range(nm) if rng.random() < 0.5] or [0]
                 yield {'kind': 'container', 'cols': cols, 'probs': probs, 'idx': idx, 'mode': mode}
             else:
-                t = rng.choice([0.0, math.pi / 2, math.pi, rng.uniform(0, math.pi), rng.uniform(0, math.pi / 2), 1e-9, math.pi - 1e-9])
+                t = rng.choice([0.0, math.pi / 2, math.pi, rng.uniform(0, math.pi), rng.uniform(0, math.pi / 2), 1e-9, math.pi - 1e-9,
+                                rng.uniform(math.pi / 2, math.pi - 0.05), rng.uniform(math.pi / 2, math.pi - 0.05), math.pi / 2 + 1e-6])
                 az = rng.uniform(0, 2 * math.pi)
                 v = [math.sin(t) * math.cos(az), math.sin(t) * math.sin(az), math.cos(t)]
                 if t == math.pi / 2:
                     v[2] = 0.0            # exactly on the equator (cos(pi/2) is 6e-17 in doubles)
                 yield {'kind': 'project', 'v': v, 't': t, 'az': az, 'area': rng.random() < 0.5, 'lower': rng.random() < 0.7,
-                       'full': rng.random() < 0.3, 'back': rng.random() < 0.4, 'array': rng.random() < 0.3}
+                       'full': rng.random() < 0.4, 'back': rng.random() < 0.4, 'array': rng.random() < 0.3}
 
     # ------------------------------------------------------------------ implementation
     def impl(self, case):
